@@ -67,7 +67,7 @@ static CO_ERR COTSyncIdWrite(struct CO_OBJ_T *obj, struct CO_NODE_T *node, void 
     uint32_t nid;
     uint32_t oid;
 
-    CO_UNUSED(size);
+    ASSERT_EQU_ERR(size, 4u, CO_ERR_BAD_ARG);
 
     sync = &node->Sync;
     nid = *(uint32_t*)buffer;
